@@ -265,6 +265,13 @@ func (sdb *DbSqlite) reset() error {
 // verifyNodeHashes recursively verifies all the hash values for all nodes
 // this walks to the bottom of the tree, and then works its way back up
 func (sdb *DbSqlite) verifyNodeHashes(fix bool) error {
+	// keep writers out while we walk (and possibly repair) the tree: hashes read
+	// half-way through a concurrent write would look wrong, a repair based on
+	// them would overwrite a correct hash, and our own UPDATEs would make a
+	// concurrent write transaction fail with SQLITE_BUSY
+	sdb.writeLock.Lock()
+	defer sdb.writeLock.Unlock()
+
 	// must run this in a transaction so we don't get any modifications
 	// while reading child nodes. This may be expensive for a large DB, so
 	// we may want to eventually break this down into transactions for each node
